@@ -14,8 +14,8 @@ RULE = ("case = (single-topology reaction with complete helicity sets, dynamics)
         "of the returned PoolSum). distinct = (spin content, massless pattern, alignment); non-trivial iff the final state "
         "carries spin and the intensity varies over the events")
 ASSUMPTIONS = ["equality to 1e-8 relative to max(I) at 24 events", "the spin range of a massless particle with integer spin may omit 0 (documented flag); nothing else may be omitted"]
-FLOORS = {"quick": {"evaluations": 300, "distinct_nontrivial": 15, "hooks": ["create_spin_range", "formulate_helicity_rotation", "pipeline:aligned"]},
-          "thorough": {"evaluations": 3000, "distinct_nontrivial": 60, "hooks": ["create_spin_range", "formulate_helicity_rotation", "pipeline:aligned"]}}
+FLOORS = {"quick": {"evaluations": 300, "distinct_nontrivial": 15, "hooks": ["create_spin_range", "formulate_helicity_rotation", "formulate_rotation_chain", "pipeline:aligned"]},
+          "thorough": {"evaluations": 3000, "distinct_nontrivial": 60, "hooks": ["create_spin_range", "formulate_helicity_rotation", "formulate_rotation_chain", "pipeline:aligned"]}}
 CASE_TIMEOUT = {"quick": 400, "thorough": 1500}
 WALL_BUDGET = {"quick": 900, "thorough": 10800}
 
@@ -34,6 +34,13 @@ def plan(tier, seed):
         cases.append({"kind": "equal", "reaction": {"kind": "synth", "seed": int(rng.integers(1 << 30)), "n_final": [3, 3, 3, 4][k % 4],
                                                     "formalism": "helicity" if (k % 4 == 3 and tier == "quick") else ["helicity", "canonical-helicity"][k % 2],
                                                     "max_spin2": [2, 3, 5, 4][k % 4], "massless": k % 3 == 0},
+                      "dynamics": ["bw", "none"][k % 2], "seed": int(rng.integers(1 << 30)), "cost": 15.0})
+    # a massless particle listed before a recoil system that contains a massive final-state particle of integer
+    # spin >= 1: the massive particle's rotation chain passes a node whose helicity state is the massless one
+    for k in range(6 if tier == "quick" else 80):
+        cases.append({"kind": "equal", "reaction": {"kind": "synth", "seed": int(rng.integers(1 << 30)), "n_final": [3, 3, 4][k % 3],
+                                                    "formalism": "helicity", "max_spin2": 2, "massless": True,
+                                                    "want": "massless_before_massive_vector"},
                       "dynamics": ["bw", "none"][k % 2], "seed": int(rng.integers(1 << 30)), "cost": 15.0})
     return cases
 
@@ -71,6 +78,19 @@ def setup_worker(rec, ctx):
                   {"spin": float(spin_magnitude)}, {"hook": "formulate_helicity_rotation"})
     attach(AX, "formulate_helicity_rotation", hook="formulate_helicity_rotation", rec=rec, ensure=ensure_rot)
 
+    def ensure_chain(old, result, transition, rotated_state_id):
+        # every rotation of one final-state particle's spin state sums over that particle's own projections:
+        # -s..s in unit steps, where only a massless particle of integer spin may omit 0
+        part = transition.states[rotated_state_id].particle
+        want = closed_form(float(part.spin), part.mass == 0.0)
+        pools = [sorted(float(v) for v in values) for _, values in result.indices]
+        bad = [p_ for p_ in pools if p_ != want]
+        rec.check(not bad and len(pools) >= 1, "rotation_pool",
+                  f"formulate_rotation_chain(state {rotated_state_id}: {part.name}, spin {float(part.spin)}, mass {part.mass}) sums over "
+                  f"{pools}, expected every index to run over {want}",
+                  {"particle": part.name, "pools": pools}, {"hook": "formulate_rotation_chain", "rotated_particle_massless": part.mass == 0.0})
+    attach(AX, "formulate_rotation_chain", hook="formulate_rotation_chain", rec=rec, ensure=ensure_chain)
+
 
 def _reaction(case):
     from vmon.props.c01 import make_reaction
@@ -79,9 +99,18 @@ def _reaction(case):
     if desc["kind"] == "fixture":
         return make_reaction(desc)
     rng0 = np.random.default_rng([desc["seed"]])
-    for attempt in range(40):
+    for attempt in range(400 if desc.get("want") else 40):
         spec = R.synth_spec(rng0, n_final=desc["n_final"], formalism=desc["formalism"], max_spin2=desc["max_spin2"] if desc["n_final"] == 3 else 2,
-                            allow_massless=desc["massless"], max_transitions=80)
+                            allow_massless=desc["massless"], max_transitions=80, shuffle_names=desc["seed"] % 2 == 1)
+        if desc.get("want") == "massless_before_massive_vector":
+            fin = sorted(int(k) for k in spec["mass"] if int(k) >= 0 and int(k) < spec["n_final"])
+            first = str(fin[0])
+            spec["mass"][first] = 0.0
+            if spec["spins2"][first] == 0:
+                spec["spins2"][first] = 2
+            if not any(spec["spins2"][str(i)] == 2 and spec["mass"][str(i)] > 0 for i in fin[1:]):
+                continue
+            spec["parity_nodes"] = []
         r = R.build_synth(spec)
         if r is not None and R.has_complete_helicities(r):
             return r, f"synth:{desc['seed']}"
@@ -162,7 +191,7 @@ def run_case(case, rec, ctx):
         cfg["dynamics"] = dyn
         cfg["align"] = align
         label = f"{name} [{align}, dynamics={case['dynamics']}]"
-        feats = {**feats0, "align": align.rstrip("123"), "axisangle_with_massless_spinful_particle": align == "axisangle" and feats0["massless_spinful_final_state"]}
+        feats = {**feats0, "align": align.rstrip("123"), **R.massless_alignment_features(reaction, align)}
         try:
             r1, b1 = C.build(reaction, cfg)
             m1 = b1.formulate()
